@@ -129,6 +129,21 @@ class Recorder:
         self.harness_errors: List[str] = []
         self.exhaustive_parts: List[str] = []
         self.notes: Dict[str, Any] = {}
+        self.known_hits: Dict[str, int] = {}
+        self._known: Optional[List[dict]] = None
+
+    def _owner(self, mod, spec, f) -> Optional[str]:
+        """the listed finding this single failure belongs to (judged per failure, not per bucket: a bucket key is
+        shared by every root cause that fails the same clause in the same way)"""
+        if self._known is None:
+            self._known = load_known(getattr(mod, "ID", ""))
+        if not self._known:
+            return None
+        fd = f.to_dict()
+        for fnd in self._known:
+            if attribute(mod, fnd, spec, fd):
+                return fnd["id"]
+        return None
 
     def run(self, mod, spec) -> Optional[Outcome]:
         try:
@@ -170,6 +185,10 @@ class Recorder:
                     except Exception:
                         self.samples.append(spec)
         for f in out.failures:
+            owner = self._owner(mod, spec, f)
+            if owner is not None:
+                self.known_hits[owner] = self.known_hits.get(owner, 0) + 1
+                continue
             size = len(json.dumps(spec))
             b = self.buckets.get(f.key)
             if b is None:
@@ -195,6 +214,7 @@ class Recorder:
             "harness_errors": self.harness_errors[:5],
             "exhaustive_parts": self.exhaustive_parts,
             "notes": self.notes,
+            "known_hits": self.known_hits,
         }
 
 
@@ -209,8 +229,11 @@ def merge(dicts: List[dict]) -> dict:
         "harness_errors": [],
         "exhaustive_parts": [],
         "notes": {},
+        "known_hits": {},
     }
     for d in dicts:
+        for k, v in d.get("known_hits", {}).items():
+            out["known_hits"][k] = out["known_hits"].get(k, 0) + v
         out["evaluations"] += d["evaluations"]
         out["nontrivial"].update(d["nontrivial"])
         for k, v in d["classes"].items():
@@ -560,6 +583,8 @@ def run_property(prop_id: str, tier: str, seed: int, jobs: int) -> int:
                 f"from {fnd['replay']}"
             )
 
+    for k, v in total.get("known_hits", {}).items():
+        known_hits[k] = known_hits.get(k, 0) + v
     shrink_steps = getattr(mod, "SHRINK_STEPS", {}).get(tier, 400 if tier == "quick" else 4000)
     todo = []
     for key, b in sorted(total["buckets"].items()):
